@@ -777,10 +777,6 @@ class StmtMixin:
         st = st.copy()
         st.pc.append(Le(st.alloc, a))
         st.alloc = a
-        # the uninterpreted dynamic-attribute store (computed-name getattr/setattr) may have been written by earlier
-        # iterations: a new store version at the head of an arbitrary iteration
-        st.ghost = dict(st.ghost)
-        st.ghost["$dynver"] = VInt(self.decls.fresh("dynver_loop", INT))
         return st
 
     def snap_entry(self, st, ls):
